@@ -557,3 +557,39 @@ func generated(tier string) []Scenario {
 	}
 	return out
 }
+
+// SharedDocProduct lists the paths and the documents of the shared-document pass: every path
+// of <=1 step over the full step alphabet with every function suffix, plus every pair over the
+// mid alphabet, each evaluated by two goroutines at the same time on ONE document object (two
+// separately parsed functions), for every small, wide and big document. Under the race detector
+// any write to the document - also one that stores the value that was already there - is
+// reported (property C04: "the only way the library ever writes to caller data is Set").
+func SharedDocProduct(tier string) (paths []string, docs []string) {
+	seen := map[string]bool{}
+	add := func(l gen.Ladder) {
+		for _, u := range l.Units() {
+			for _, p := range u.Paths() {
+				t := gen.Render(p, nil).Text
+				if !seen[t] {
+					seen[t] = true
+					paths = append(paths, t)
+				}
+			}
+		}
+	}
+	add(gen.Ladder{Alpha: gen.SigmaFull(), Depth: 1, Funcs: gen.FuncSuffixes(), FuncDepth: 1})
+	add(gen.Ladder{Alpha: gen.SigmaMid(), Depth: 2})
+	for _, q := range gen.ReducedAtoms() {
+		add(gen.Ladder{Alpha: []gen.Step{gen.Filter(q)}, Depth: 1})
+	}
+	spec := gen.DocSpec{MaxNodes: 3, Keys: gen.KAB, Scalars: gen.S3, MaxArr: 3}
+	if tier == "thorough" {
+		spec.MaxNodes = 4
+	}
+	for _, d := range append(append(gen.Docs(spec), gen.WideDocs()...), gen.BigDocs()...) {
+		if t := gen.JSON(d); t != "<unmarshalable>" {
+			docs = append(docs, t)
+		}
+	}
+	return
+}
